@@ -23,35 +23,14 @@ func FromFloat(a float64) int { return int(a) }
 // want: function without a result
 func Void(a int) {}
 
-// want: result of unsupported type error
-func Err(a int) (int, error) { return a, nil }
-
 // want: package-level variable global
 func Global(a int) int { return a + global }
-
-// want: assignment to something that is neither a local variable nor a field of a parameter
-func Store(b []byte) int {
-	b[0] = 1
-	return 0
-}
 
 // want: index into a value of type map[int]int
 func (s *S) Map(k int) int { return s.m[k] }
 
-// want: index into a value of type [4]byte
-func (s *S) Array(k int) byte { return s.arr[k] }
-
-// want: slice expression other than s[i:]
-func Prefix(b []byte) int { return len(b[:2]) }
-
 // want: call of untranslated function
 func Std(a uint32) int { return bits.Len32(a) }
-
-// want: call of untranslated function
-func CallsBad(a int) int {
-	x, _ := Err(a)
-	return x
-}
 
 // want: builtin append
 func Append(b []byte) []byte { return append(b, 1) }
@@ -158,7 +137,7 @@ func TypeSwitch(v interface{}) int {
 	return 0
 }
 
-// want: call of S.Bump, which writes fields
+// want: call of S.Bump, which writes memory, inside an expression
 func (s *S) CallsWriter(a int) int { return s.Bump(a) + 1 }
 
 func (s *S) Bump(a int) int {
@@ -182,3 +161,56 @@ func DeferOther(s *S) int {
 	defer s.Bump(1)
 	return 0
 }
+
+// want: share memory that is written afterwards
+func AliasWrite(b []byte) byte {
+	t := b[1:]
+	t[0] = 1
+	return b[1]
+}
+
+// want: is written through and assigned more than once
+func Rebind(b []byte) {
+	b[0] = 1
+	b = b[1:]
+}
+
+// want: a struct passed by value
+func (s S) SetByValue(a int) int {
+	s.n = a
+	return s.n
+}
+
+func fill2(dst, src []byte) {
+	dst[0] = src[0]
+}
+
+// want: share the list v_b, which it writes
+func SharedArgs(b []byte) {
+	fill2(b, b[1:])
+}
+
+// want: comparison of two values of type error
+func CmpErrs(a, b error) bool { return a == b }
+
+// want: comparison of a slice with nil
+func NilSlice(b []byte) bool { return b == nil }
+
+// want: slice expression s[i:j:k]
+func Slice3(b []byte) int { return len(b[0:1:2]) }
+
+// want: make other than make([]T, n)
+func MakeCap(n int) int { return len(make([]byte, n, 2*n)) }
+
+// want: copy inside an expression
+func CopyExpr(a, b []byte) int { return copy(a, b) + 1 }
+
+// want: unsupported expression *ast.TypeAssertExpr
+func Assert(v interface{}) int { return v.(int) }
+
+// want: call of the external method
+func ExternRecv(s *S) int { return s.twice().ext() }
+
+func (s *S) twice() *S { return s }
+
+func (s *S) ext() int { return global }
